@@ -18,6 +18,10 @@ func genC16(p *Plan, r *RNG) {
 		genC16SlowControl(p, r)
 		return
 	}
+	if r.Chance(1, 10) {
+		genC16LastBytes(p, r)
+		return
+	}
 	if r.Chance(1, 6) {
 		genC16Real(p, r)
 		return
@@ -43,6 +47,9 @@ func genC16(p *Plan, r *RNG) {
 	if r.Chance(1, 3) {
 		cuts, reads := genCuts(r)
 		p.Streams = []StreamCut{{Conn: "*", Cuts: cuts, Reads: reads, Coalesce: r.Chance(1, 2)}}
+	}
+	if r.Chance(1, 3) {
+		eofWithData(p)
 	}
 	if r.Chance(1, 6) {
 		// a bundled generator: listeners bound with SO_REUSEPORT, outgoing connections from the relayed address
@@ -112,12 +119,21 @@ func genC16(p *Plan, r *RNG) {
 				o := Op{Actor: c, Kind: "data_close", At: g, A: OpArgs{N: r.Intn(ndata[c])}}
 				if r.Chance(1, 3) {
 					o.A.Flags = []string{"rst"}
+				} else if r.Chance(1, 2) {
+					// the last bytes and the close at one instant: the FIN travels with the data
+					p.Ops = append(p.Ops, Op{Actor: c, Kind: "data_send", At: g, A: OpArgs{N: o.A.N, Len: r.PickInt([]int{1, 10, 240, 1000, 5000})}})
+					o.At = gap(0)
 				}
 				p.Ops = append(p.Ops, o)
 			}
 		case w < 97:
 			if npeerc[pid] > 0 {
-				p.Ops = append(p.Ops, Op{Actor: pid, Kind: "peer_close", At: g, A: OpArgs{N: r.Intn(npeerc[pid])}})
+				o := Op{Actor: pid, Kind: "peer_close", At: g, A: OpArgs{N: r.Intn(npeerc[pid])}}
+				if r.Chance(1, 2) {
+					p.Ops = append(p.Ops, Op{Actor: pid, Kind: "peer_data", At: g, A: OpArgs{N: o.A.N, Len: r.PickInt([]int{1, 10, 240, 1000, 5000})}})
+					o.At = gap(0)
+				}
+				p.Ops = append(p.Ops, o)
 			}
 		default:
 			switch r.Intn(3) {
@@ -293,6 +309,53 @@ func genC16SlowControl(p *Plan, r *RNG) {
 	}
 	add(Op{Actor: "c1", Kind: "binding", At: gap(500 * ms)})
 	add(Op{Actor: "c2", Kind: "binding", At: gap(200 * ms)})
+	p.QuietNS = 40 * sec
+}
+
+// genC16LastBytes: bound pipes (one made with Connect, one with an inbound connection) whose
+// ends write their last bytes and close at one instant, over connections whose Read hands out
+// the last bytes together with io.EOF: what was written before the close arrives before it.
+func genC16LastBytes(p *Plan, r *RNG) {
+	baseSrvConfig(p, r)
+	p.Flavor = "tcprelay-last-bytes"
+	p.Cfg.Listener = "tcp"
+	p.Cfg.Extra = map[string]int64{"tcp_peers": 1}
+	p.Clients = []ClientSpec{{ID: "c1", Addr: "10.0.1.1:4000", User: "u1", Pass: "pw-one"}}
+	p.Peers = []PeerSpec{{ID: "p1", Addr: "10.0.2.1:5000"}, {ID: "p2", Addr: "10.0.2.2:5017"}}
+	if r.Chance(3, 4) {
+		eofWithData(p)
+	}
+	if r.Chance(1, 3) {
+		cuts, reads := genCuts(r)
+		p.Streams = []StreamCut{{Conn: "*", Cuts: cuts, Reads: reads, Coalesce: r.Chance(1, 2)}}
+	}
+	add := func(o Op) { p.Ops = append(p.Ops, o) }
+	lens := []int{1, 10, 240, 1000, 5000}
+	add(Op{Actor: "c1", Kind: "allocate", At: gap(int64(r.Range(1, 200)) * ms), A: OpArgs{Lifetime: -1, Transport: "tcp"}})
+	add(Op{Actor: "c1", Kind: "createperm", At: gap(int64(r.Range(50, 300)) * ms), A: OpArgs{Peers: []string{p.Peers[0].Addr, p.Peers[1].Addr}}})
+	add(Op{Actor: "c1", Kind: "connect", At: gap(int64(r.Range(100, 500)) * ms), A: OpArgs{Peer: p.Peers[0].Addr}})
+	add(Op{Actor: "c1", Kind: "connbind", At: gap(int64(r.Range(200, 500)) * ms), A: OpArgs{N: 0}})
+	add(Op{Actor: "p2", Kind: "peer_connect", At: gap(int64(r.Range(100, 300)) * ms), A: OpArgs{Target: "c1", N: 0}})
+	add(Op{Actor: "c1", Kind: "connbind", At: gap(int64(r.Range(200, 500)) * ms), A: OpArgs{N: 1}})
+	for conn := 0; conn < 2; conn++ {
+		pid := p.Peers[conn].ID
+		for k := r.Range(0, 3); k > 0; k-- {
+			if r.Chance(1, 2) {
+				add(Op{Actor: "c1", Kind: "data_send", At: gap(int64(r.Range(50, 500)) * ms), A: OpArgs{N: conn, Len: r.PickInt(lens)}})
+			} else {
+				add(Op{Actor: pid, Kind: "peer_data", At: gap(int64(r.Range(50, 500)) * ms), A: OpArgs{N: 0, Len: r.PickInt(lens)}})
+			}
+		}
+		g := gap(int64(r.Range(50, 500)) * ms)
+		if r.Chance(1, 2) {
+			add(Op{Actor: "c1", Kind: "data_send", At: g, A: OpArgs{N: conn, Len: r.PickInt(lens)}})
+			add(Op{Actor: "c1", Kind: "data_close", At: gap(0), A: OpArgs{N: conn}})
+		} else {
+			add(Op{Actor: pid, Kind: "peer_data", At: g, A: OpArgs{N: 0, Len: r.PickInt(lens)}})
+			add(Op{Actor: pid, Kind: "peer_close", At: gap(0), A: OpArgs{N: 0}})
+		}
+	}
+	add(Op{Actor: "c1", Kind: "binding", At: gap(500 * ms)})
 	p.QuietNS = 40 * sec
 }
 
